@@ -56,12 +56,12 @@ LEVEL_TEXT = {
             "the input's observers; an evaluation with nothing dirty runs nothing. (2) Abstract model of evaluator-driven bindings (PropAbsLazy.v): ONE "
             "evaluateAll over bindings registered in dependency order leaves every registered binding clean and every bound property equal to the denotation "
             "of its expression, for every network, interpretation and delivery order. (3) Refinement and growth (PropSimLazy.v, PropGrowLazy.v): in worlds all "
-            "of whose bindings belong to one explicit evaluator and whose observers do not act, setHelper of the executable model is the abstract marking "
+            "of whose bindings are evaluator-driven (through one or several explicit evaluators) and whose observers do not act, setHelper of the executable model is the abstract marking "
             "assignment and evaluateAll the abstract pass; these state conditions hold in every world reached by creating properties, plain observers, fresh "
             "evaluator-driven bindings, assignments and evaluateAll, and in such a network the registration order is a duplicate-free dependency order; hence "
             "after ONE evaluateAll every registered bound property equals its expression recomputed from scratch (no further premise); the same for histories "
             "that also reset() bound properties (PropGrowLazyMore.v), and a reset binding is dead and out of the registry evaluateAll iterates; for EVERY history (any outcome, acting observers): registries hold live bindings only and a dead binding stays dead, so a reset, replaced or destroyed binding is never evaluated again (PropReg.v). PARTIAL: mixed worlds (immediate and evaluator-driven bindings "
-            "together, several evaluators, acting observers, rebinding/moves/destruction) are covered by the extracted checker "
+            "together, acting observers, rebinding/moves/destruction) are covered by the extracted checker "
             "check_c06_after_evalall on every evaluateAll of every generated history and by correspondence.", '6/C06'),
     'C07': ("Machine-checked on the executable model: every direct write to a bound property raises ReadOnlyProperty and leaves the world unchanged; reset keeps "
             "value and observers, removes the updater and re-enables the normal write protocol; destroying/replacing a binding touches no property and no "
